@@ -49,7 +49,7 @@ type Harness struct {
 	maxPaths     int
 	qtimeout     time.Duration
 	budget       time.Duration
-	mergeMaps, permuteMaps, trustExhaustive, allowPanic bool
+	mergeMaps, permuteMaps, trustExhaustive, allowPanic, deferGo bool
 }
 
 const primsSrc = `//go:build verif
@@ -394,6 +394,8 @@ func (e *Engine) newHarness(sp *ssa.Package, fn *ssa.Function, doc string) (*Har
 					h.permuteMaps = true
 				case "allowpanic":
 					h.allowPanic = true
+				case "defergo":
+					h.deferGo = true
 				default:
 					return nil, fmt.Errorf("unknown option %q", o)
 				}
